@@ -174,7 +174,7 @@ impl Property for C15 {
         }
     }
     fn rule(&self) -> &'static str {
-        "(A, one third of the cases) generated sets of 1..5 source files (unformatted, formatted, failing to parse, comment-only, a root with three out-of-line modules) in a directory layout with 0..3 local rustfmt.toml files (sibling directories and a directory nested below another one that has its own configuration); the real binary runs (a) on every file alone (stdout and files mode) as the reference, (b) on every order of the files on one command line (all permutations up to 24), (c) twice with the same command, (b') with --emit json for all files at once against the single-file json reports, (d) with the source on standard input from the file's directory, (e) from another working directory with absolute paths and with a perturbed environment (TERM, LANG, RUST_BACKTRACE, NO_COLOR, extra variables); oracle: per-file text and per-file files-mode bytes equal the single-file results, the exit status is the maximum of the single-file statuses, repeated runs are byte-identical (including the emission order of the files of one module tree), the multi-file json report is the union of the single-file reports; (B, two thirds) 2..5 inputs formatted one after the other in ONE API Session in every order, some under Session::override_config with a local configuration: text and report entries of every input equal those of a session of its own and the session's summary flags after each step are the OR of the single-session flags; non-trivial = the set mixes a failing and an unformatted file, or has two different local configurations; distinct by case content"
+        "(A, one third of the cases) generated sets of 1..5 source files (unformatted, formatted, failing to parse, comment-only, a root with three out-of-line modules, a root whose out-of-line modules are declared inside cfg_if! after 0..3 other items, two roots that mount the same module file) in a directory layout with 0..3 local rustfmt.toml files (sibling directories and a directory nested below another one that has its own configuration); the real binary runs (a) on every file alone (stdout and files mode) as the reference, (b) on every order of the files on one command line (all permutations up to 24), (c) twice with the same command, (b') with --emit json for all files at once against the single-file json reports, (d) with the source on standard input from the file's directory, (e) from another working directory with absolute paths and with a perturbed environment (TERM, LANG, RUST_BACKTRACE, NO_COLOR, extra variables); oracle: per-file text and per-file files-mode bytes equal the single-file results, the exit status is the maximum of the single-file statuses, repeated runs are byte-identical (including the emission order of the files of one module tree), the multi-file json report is the union of the single-file reports; (B, two thirds) 2..5 inputs formatted one after the other in ONE API Session in every order, some under Session::override_config with a local configuration: text and report entries of every input equal those of a session of its own and the session's summary flags after each step are the OR of the single-session flags; non-trivial = the set mixes a failing and an unformatted file, or has two different local configurations; distinct by case content"
     }
     fn generate(&self, c: &mut Choices<'_>, _g: &GenCtx) -> Value {
         if c.chance(2, 3) {
@@ -201,8 +201,31 @@ impl Property for C15 {
                 used_cfg += 1;
             }
         }
+        // two roots that mount the same module file (its reports belong to both inputs)
+        let shared_dir = if n >= 2 && c.chance(1, 4) { Some(dirs[c.below(dirs.len())]) } else { None };
+        if let Some(d) = shared_dir {
+            configs.push(F { path: format!("{d}/shared_c.rs"), content: "pub fn  shared_fn ( ) { let y=2 ; }\n".to_string() });
+        }
         for i in 0..n {
             let d = dirs[c.below(dirs.len())];
+            if let (Some(sd), true) = (shared_dir, i < 2) {
+                files.push(F { path: format!("{sd}/f{i}.rs"), content: format!("#[path = \"shared_c.rs\"]\nmod shared_c;\nfn  uses_shared_{i} ( ) {{ }}\n") });
+                continue;
+            }
+            if c.chance(1, 5) {
+                // a root whose out-of-line modules are declared inside cfg_if!, after a varying
+                // number of other identifiers
+                let mut content = String::new();
+                for j in 0..c.below(4) {
+                    content.push_str(&format!("fn  pre_{i}_{j} ( arg_{i}_{j} : u8 ) {{ }}\n"));
+                }
+                content.push_str("cfg_if::cfg_if! {\n    if #[cfg(unix)] {\n        mod ka;\n    } else {\n        mod kb;\n    }\n}\nfn  root_with_cfg_if ( ) { }\n");
+                files.push(F { path: format!("{d}/f{i}.rs"), content });
+                for k in ["ka", "kb"] {
+                    configs.push(F { path: format!("{d}/f{i}/{k}.rs"), content: format!("pub fn  {k}_{i} ( ) {{ let x=1 ; }}\n") });
+                }
+                continue;
+            }
             if c.chance(1, 4) {
                 // a root with three out-of-line modules (emission order within one input)
                 files.push(F { path: format!("{d}/f{i}.rs"), content: "mod kc;\nmod ka;\nmod kb;\nfn  root_of_tree ( ) { }\n".to_string() });
@@ -360,7 +383,7 @@ impl Property for C15 {
         }
         // ---- (d) standard input from the file's directory ---------------------------------------
         for (i, f) in files.iter().enumerate() {
-            if single_code[i] != 0 || f.content.starts_with("mod kc;") {
+            if single_code[i] != 0 || f.content.starts_with("mod kc;") || f.content.contains("cfg_if!") || f.content.contains("mod shared_c;") {
                 // (children of a root given on standard input are not visited)
                 continue;
             }
